@@ -1251,7 +1251,42 @@ def _level_store(I, new, slot, is_mean_point, sv, node, applies, env):
 
 def construct(I, f, args, kwargs, node):
     cls = f.node
-    return Opaque(f.dotted, {"__class__": (f.module, cls), "__args__": (args, kwargs)})
+    obj = Opaque(f.dotted, {"__class__": (f.module, cls), "__args__": (args, kwargs)})
+    if any((dotted_name(d.func if isinstance(d, ast.Call) else d) or "").split(".")[-1] == "dataclass" for d in cls.decorator_list):
+        # a dataclass: the generated constructor binds the fields in declaration order, fills the defaults and runs __post_init__
+        fields = [n for n in cls.body if isinstance(n, ast.AnnAssign) and isinstance(n.target, ast.Name)]
+        given = dict(zip([n.target.id for n in fields], args))
+        for k, v in kwargs.items():
+            if k in given:
+                raise I_.raise_exc("TypeError", node, "%s() got multiple values for field %s" % (cls.name, k))
+            given[k] = v
+        saved = I.cur_mod
+        I.cur_mod = f.module
+        try:
+            for n in fields:
+                nm = n.target.id
+                if nm in given:
+                    obj.attrs[nm] = given.pop(nm)
+                elif n.value is None:
+                    raise I_.raise_exc("TypeError", node, "%s() missing field %s" % (cls.name, nm))
+                elif isinstance(n.value, ast.Call) and (dotted_name(n.value.func) or "").split(".")[-1] == "field":
+                    kw = {k.arg: k.value for k in n.value.keywords}
+                    if "default_factory" in kw:
+                        obj.attrs[nm] = I.call(I.eval(kw["default_factory"], {}), [], {}, node, {})
+                    elif "default" in kw:
+                        obj.attrs[nm] = I.eval(kw["default"], {})
+                    else:
+                        raise I_.raise_exc("TypeError", node, "%s() missing field %s" % (cls.name, nm))
+                else:
+                    obj.attrs[nm] = I.eval(n.value, {})
+        finally:
+            I.cur_mod = saved
+        if given:
+            raise I_.raise_exc("TypeError", node, "%s() got unexpected fields %s" % (cls.name, sorted(given)))
+        post = next((n for n in cls.body if isinstance(n, ast.FunctionDef) and n.name == "__post_init__"), None)
+        if post is not None:
+            I.call_package(FuncRef("pkg", f.module.name + "." + cls.name + ".__post_init__", f.module, post), [obj], {}, node)
+    return obj
 
 
 def method(I, f, args, kwargs, node):
@@ -1859,6 +1894,16 @@ def dc_fields(I, args, kwargs, node):
 def external(I, dotted, args, kwargs, node):
     if dotted == "dataclasses.fields":
         return dc_fields(I, args, kwargs, node)
+    if dotted == "dataclasses.replace" and args and isinstance(args[0], Opaque) and len(args) == 1:
+        # a copy of the dataclass instance with some fields given anew (the constructor's own checks are not re-run here)
+        src = args[0]
+        new = Opaque(src.name, dict(src.attrs))
+        for k, v in kwargs.items():
+            if k not in src.attrs:
+                raise I_.raise_exc("TypeError", node, "replace() got an unexpected field %s" % k)
+            new.attrs[k] = v
+        new.attrs["__replaced_from__"] = src
+        return new
     h = EXT.get(dotted)
     if h is None:
         short = dotted.split(".")[-1]
@@ -1916,6 +1961,8 @@ def np_array(I, args, kwargs, node):
         return r
     if isinstance(x, Expr):
         return Arr((), x, dt or _scalar_dtype(x), {})
+    if isinstance(x, Tup) and dt in ("float", "float64") and x.items and all(isinstance(i, Expr) or i is None for i in x.items) and any(i is None for i in x.items):
+        x = Tup([alg.sym("nan") if i is None else i for i in x.items], x.kind)  # None converts to NaN in a float array
     if isinstance(x, Tup):
         if all(isinstance(i, Expr) for i in x.items):
             n = len(x.items)
